@@ -1,58 +1,14 @@
-import SupervisorModel.Model.Config
+import SupervisorModel.Lemmas.Config
 /-
   C14 — a configuration file determines exactly the configured process set.
   Property theorems over Model/Config.lean; every table and guard they mention (`Sv.Gen.Config.*`) is
   regenerated from /repo on each run.
 -/
 set_option linter.unusedSimpArgs false
+set_option maxRecDepth 4000
 namespace Sv.Props.C14
 open Sv Sv.Config Sv.Gen.Config
 
-/-! ### dictionaries -/
-
-theorem lookup_cons' {α : Type} (k a : String) (b : α) (es : List (String × α)) :
-    List.lookup k ((a, b) :: es) = if k = a then some b else List.lookup k es := by
-  rw [List.lookup_cons]
-  by_cases h : k = a
-  · subst h; simp
-  · have : (k == a) = false := by simp [h]
-    simp [this, h]
-
-theorem lookup_dset {α : Type} (d : List (String × α)) (k k' : String) (v : α) :
-    (dset d k' v).lookup k = if k = k' then some v else d.lookup k := by
-  induction d with
-  | nil => simp only [dset, lookup_cons', List.lookup_nil]
-  | cons hd tl ih =>
-    obtain ⟨a, b⟩ := hd
-    simp only [dset]
-    by_cases h : a = k'
-    · subst h; simp only [beq_self_eq_true, if_true, lookup_cons']
-      by_cases h2 : k = a <;> simp [h2]
-    · have : (a == k') = false := by simp [h]
-      simp only [this, lookup_cons', ih]
-      by_cases h2 : k = a
-      · subst h2; simp [h]
-      · simp [h2, lookup_cons', ih]
-
-theorem lookup_append' {α : Type} (l₁ l₂ : List (String × α)) (k : String) :
-    (l₁ ++ l₂).lookup k = (l₁.lookup k <|> l₂.lookup k) := by
-  induction l₁ with
-  | nil => simp
-  | cons hd tl ih =>
-    obtain ⟨a, b⟩ := hd
-    simp only [List.cons_append, lookup_cons', ih]
-    by_cases h : k = a <;> simp [h]
-
-theorem lookup_dupdate {α : Type} (e d : List (String × α)) (k : String) :
-    (dupdate d e).lookup k = (e.reverse.lookup k <|> d.lookup k) := by
-  induction e generalizing d with
-  | nil => simp [dupdate]
-  | cons hd tl ih =>
-    obtain ⟨a, b⟩ := hd
-    simp only [dupdate, List.foldl_cons] at ih ⊢
-    rw [ih, lookup_dset]
-    simp only [List.reverse_cons, lookup_append', lookup_cons', List.lookup_nil]
-    cases List.lookup k tl.reverse <;> by_cases h : k = a <;> simp [h]
 
 /-- **env_precedence.**  The child environment is the [supervisord] environment overridden by the program's:
     a variable has the program's value when the program sets it (the last binding, as in a Python dict),
@@ -122,5 +78,267 @@ def docAgrees (d : DocRow) : Bool :=
 theorem defaults_documented :
     ∀ d ∈ docTable, d.scope ∈ ["program", "group", "supervisord"] → d.opt ≠ "loglevel" → docAgrees d = true := by
   decide
+
+/-! ### numprocs law and per-process expansion -/
+
+theorem mkProc_expands (cx : Ctx) (kind : PKind) (sec : Section) (pre : Pre) (E E' : Exps) (num : Int) (p : PConfig)
+    (h : mkProc cx kind sec pre E num = .ok (p, E')) :
+    ∃ envStr env nameX out err,
+      expand (procExps1 cx pre E num) pre.environment_str = .ok envStr ∧
+      dictOfKeyValuePairs envStr = .ok env ∧
+      E' = envExps (procExps1 cx pre E num) env ∧
+      p.environment = env ∧
+      expand E' pre.process_name = .ok nameX ∧ processOrGroupName nameX = .ok p.name ∧
+      (getField cx.penv "program" sec "command" [] E' >>= asOptStr) = .ok (some p.command) ∧
+      logSet cx sec E' "stdout" = .ok out ∧ p.stdout_logfile = out.logfile ∧
+      logSet cx sec E' "stderr" = .ok err ∧ p.stderr_logfile = (if pre.redirect_stderr then LogFile.none else err.logfile) ∧
+      p.kind = kind := by
+  simp only [mkProc, bind, Except.bind, pure, Except.pure] at h
+  repeat (split at h <;> try contradiction)
+  all_goals
+    rename_i _ envStr h1 _ env h2 _ dir h3 _ out h4 _ err h5 _ _ cmd h6 _ nameX h7 _ name h8 hr
+    injection h with h
+    injection h with hp hE
+    subst hp; subst hE
+    refine ⟨envStr, env, nameX, out, err, h1, h2, rfl, rfl, h7, h8, ?_, h4, rfl, h5, by simp [hr], rfl⟩
+    simpa [bind, Except.bind] using h6
+
+/-- inside round `num` of the loop, `%(process_num)…` and `%(numprocs)…` denote `num` and numprocs
+    (provided the ENV_ expansions do not themselves define these two names) -/
+theorem loop_expansions_bind (cx : Ctx) (pre : Pre) (E : Exps) (num : Int) (env : KV)
+    (hp : ∀ kv ∈ cx.penv, kv.1 ≠ "process_num" ∧ kv.1 ≠ "numprocs") :
+    (envExps (procExps1 cx pre E num) env).lookup "process_num" = some (.i num) ∧
+    (envExps (procExps1 cx pre E num) env).lookup "numprocs" = some (.i pre.numprocs) := by
+  have r1 : cx.penv.reverse.lookup "process_num" = none :=
+    lookup_none_of_keys _ _ (fun kv h => (hp kv (List.mem_reverse.mp h)).1)
+  have r2 : cx.penv.reverse.lookup "numprocs" = none :=
+    lookup_none_of_keys _ _ (fun kv h => (hp kv (List.mem_reverse.mp h)).2)
+  constructor
+  · rw [envExps_lookup _ _ _ (by decide), procExps1, lookup_dupdate, r1, lookup_dset, lookup_dset]
+    simp
+  · rw [envExps_lookup _ _ _ (by decide), procExps1, lookup_dupdate, r2, lookup_dset]
+    simp
+
+/-- **numprocs_law.**  A section with numprocs = n and numprocs_start = s yields exactly n processes (none when
+    n ≤ 0), and the i-th one is built by the loop body for process_num = s + i … -/
+theorem numprocs_law (cx : Ctx) (kind : PKind) (sec : Section) (suffix g : String) (ps : List PConfig)
+    (h : processesUnsorted cx kind sec suffix g = .ok ps) :
+    ∃ pn pre, processOrGroupName suffix = .ok pn ∧ parsePre cx sec (commonExps cx pn g) = .ok pre ∧
+      ps.length = pre.numprocs.toNat ∧
+      ∀ i (hi : i < ps.length), ∃ Ei Ei', mkProc cx kind sec pre Ei (pre.numprocs_start + i) = .ok (ps[i], Ei') := by
+  obtain ⟨pn, pre, h1, h2, _, h4⟩ := processesUnsorted_ok cx kind sec suffix g ps h
+  obtain ⟨hl, hall⟩ := procLoop_spec cx kind sec pre _ _ ps h4
+  rw [procNums_eq] at hl hall
+  rw [rangeFrom_length] at hl
+  refine ⟨pn, pre, h1, h2, hl, ?_⟩
+  intro i hi
+  have hn : i < (rangeFrom pre.numprocs_start pre.numprocs.toNat).length := by rw [rangeFrom_length]; omega
+  obtain ⟨Ei, Ei', hm⟩ := hall i hi hn
+  rw [rangeFrom_get] at hm
+  exact ⟨Ei, Ei', hm⟩
+
+/-- the sorted result is a permutation of the loop's output, so the count and the set of processes are the same -/
+theorem processesFromSection_perm (cx : Ctx) (kind : PKind) (sec : Section) (suffix g : String) (ps : List PConfig)
+    (h : processesFromSection cx kind sec suffix g = .ok ps) :
+    ∃ us, processesUnsorted cx kind sec suffix g = .ok us ∧ ps = sortBy pLt us ∧ ps.Perm us := by
+  unfold processesFromSection at h
+  cases hu : processesUnsorted cx kind sec suffix g with
+  | error e => simp [hu, Except.map] at h
+  | ok us =>
+    simp only [hu, Except.map] at h
+    injection h with h
+    exact ⟨us, rfl, h.symm, h ▸ sortBy_perm pLt us⟩
+
+/-- **constraint: numprocs > 1 without %(process_num).** -/
+theorem constraint_numprocs_needs_process_num (cx : Ctx) (kind : PKind) (sec : Section) (suffix g pn : String) (pre : Pre)
+    (h1 : processOrGroupName suffix = .ok pn) (h2 : parsePre cx sec (commonExps cx pn g) = .ok pre)
+    (hn : 1 < pre.numprocs) (hm : strContains processNumMarker pre.process_name = false) :
+    ∃ e, processesFromSection cx kind sec suffix g = .error e := by
+  have hc : ∃ e, checkPre pre = .error e := by
+    simp [checkPre, pfs_g4, hn, hm]
+  obtain ⟨e, hc⟩ := hc
+  exact ⟨e, by simp [processesFromSection, processesUnsorted, bind, Except.bind, h1, h2, hc, Except.map]⟩
+
+/-- **constraint: stopasgroup without killasgroup.** -/
+theorem constraint_stopasgroup_needs_killasgroup (cx : Ctx) (kind : PKind) (sec : Section) (suffix g pn : String) (pre : Pre)
+    (h1 : processOrGroupName suffix = .ok pn) (h2 : parsePre cx sec (commonExps cx pn g) = .ok pre)
+    (hs : pre.stopasgroup = true) (hk : pre.killasgroup = false) :
+    ∃ e, processesFromSection cx kind sec suffix g = .error e := by
+  have hc : ∃ e, checkPre pre = .error e := by
+    simp only [checkPre, pfs_g4, pfs_g6, hs, hk]
+    split <;> simp
+  obtain ⟨e, hc⟩ := hc
+  exact ⟨e, by simp [processesFromSection, processesUnsorted, bind, Except.bind, h1, h2, hc, Except.map]⟩
+
+/-! ### documented constraints (continued) and converters -/
+
+/-- **constraint: malformed numbers, booleans, signals, sizes, exit codes, autorestart words, expansions.**
+    If the typed read of any pre-loop option fails (its value does not convert, or does not expand), the
+    section is rejected. -/
+theorem constraint_malformed_value (cx : Ctx) (kind : PKind) (sec : Section) (suffix g pn : String)
+    (h1 : processOrGroupName suffix = .ok pn)
+    (hbad : let gf := fun (opt : String) (locals : List (String × Raw)) =>
+              getField cx.penv "program" sec opt locals (commonExps cx pn g)
+            (∃ e, (gf "priority" [] >>= asInt) = .error e) ∨ (∃ e, (gf "autostart" [] >>= asBool) = .error e) ∨
+            (∃ e, (gf "autorestart" [] >>= asRestart) = .error e) ∨ (∃ e, (gf "startsecs" [] >>= asInt) = .error e) ∨
+            (∃ e, (gf "startretries" [] >>= asInt) = .error e) ∨ (∃ e, (gf "stopsignal" [] >>= asInt) = .error e) ∨
+            (∃ e, (gf "stopwaitsecs" [] >>= asInt) = .error e) ∨ (∃ e, (gf "stopasgroup" [] >>= asBool) = .error e) ∨
+            (∃ e, (gf "exitcodes" [] >>= asInts) = .error e) ∨ (∃ e, (gf "redirect_stderr" [] >>= asBool) = .error e) ∨
+            (∃ e, (gf "numprocs" [] >>= asInt) = .error e) ∨ (∃ e, (gf "numprocs_start" [] >>= asInt) = .error e) ∨
+            (∃ e, (gf "stdout_capture_maxbytes" [] >>= asInt) = .error e) ∨
+            (∃ e, (gf "stdout_events_enabled" [] >>= asBool) = .error e) ∨
+            (∃ e, (gf "stderr_capture_maxbytes" [] >>= asInt) = .error e) ∨
+            (∃ e, (gf "stderr_events_enabled" [] >>= asBool) = .error e)) :
+    ∃ e, processesFromSection cx kind sec suffix g = .error e := by
+  have hp : ∃ e, parsePre cx sec (commonExps cx pn g) = .error e := by
+    apply isError_of_not_ok
+    intro pre hpre
+    have hf := parsePre_fields cx sec _ pre hpre
+    simp only at hf hbad
+    obtain ⟨f1, f2, f3, f4, f5, f6, f7, f8, _, f10, f11, f12, f13, _, f15, f16, f17, f18, _⟩ := hf
+    rcases hbad with ⟨e, h⟩ | ⟨e, h⟩ | ⟨e, h⟩ | ⟨e, h⟩ | ⟨e, h⟩ | ⟨e, h⟩ | ⟨e, h⟩ | ⟨e, h⟩ | ⟨e, h⟩ | ⟨e, h⟩ | ⟨e, h⟩ |
+      ⟨e, h⟩ | ⟨e, h⟩ | ⟨e, h⟩ | ⟨e, h⟩ | ⟨e, h⟩ <;> simp_all
+  obtain ⟨e, hp⟩ := hp
+  exact ⟨e, by simp [processesFromSection, processesUnsorted, bind, Except.bind, h1, hp, Except.map]⟩
+
+/-- the converters reject what the documentation calls malformed -/
+theorem boolean_rejects (s : String) (h : ¬ (pyLower s ∈ truthy ∨ pyLower s ∈ falsy)) : ∃ e, boolean (.str s) = .error e := by
+  simp only [not_or] at h
+  simp [boolean, rawStr, h.1, h.2]
+
+theorem boolean_accepts (s : String) (b : Bool) (h : boolean (.str s) = .ok b) :
+    (b = true ∧ pyLower s ∈ truthy) ∨ (b = false ∧ pyLower s ∈ falsy) := by
+  have h : (if truthy.contains (pyLower s) then Except.ok true
+             else if falsy.contains (pyLower s) then Except.ok false
+             else Except.error "boolean:not a valid boolean value" : Except String Bool) = .ok b := h
+  by_cases ht : truthy.contains (pyLower s) = true
+  · rw [if_pos ht] at h; injection h with h
+    exact Or.inl ⟨h.symm, List.contains_iff_mem.mp ht⟩
+  · rw [if_neg ht] at h
+    by_cases hf : falsy.contains (pyLower s) = true
+    · rw [if_pos hf] at h; injection h with h
+      exact Or.inr ⟨h.symm, List.contains_iff_mem.mp hf⟩
+    · rw [if_neg hf] at h; contradiction
+
+theorem integer_rejects (s : String) (h : pyInt s = none) : ∃ e, integer (.str s) = .error e := by
+  simp [integer, h]
+
+theorem exitcodes_in_range (s : String) (l : List Int) (h : listOfExitcodes (.str s) = .ok l) :
+    ∀ c ∈ l, 0 ≤ c ∧ c ≤ 255 := by
+  simp only [listOfExitcodes] at h
+  split at h
+  · contradiction
+  · split at h
+    · contradiction
+    · rename_i hany
+      injection h with h; subst h
+      intro c hc
+      have : exitcodes_g0 c = false := by
+        simp only [List.any_eq_true, not_exists, not_and, Bool.not_eq_true] at hany
+        exact hany c hc
+      simp [exitcodes_g0] at this
+      omega
+
+theorem signal_in_table (r : Raw) (n : Int) (h : signalNumber r = .ok n) : n ∈ sigNums := by
+  have key : ∀ (L : List Int) (m : Int),
+      (if L.contains m = true then Except.ok m else Except.error "signal:not a valid signal number" : Except String Int) = .ok n →
+      n ∈ L := by
+    intro L m hm
+    by_cases hc : L.contains m = true
+    · rw [if_pos hc] at hm; injection hm with hm; subst hm; exact List.contains_iff_mem.mp hc
+    · rw [if_neg hc] at hm; contradiction
+  cases r with
+  | int m => exact key sigNums m h
+  | str s =>
+    unfold signalNumber at h
+    dsimp only at h
+    cases hp : pyInt s with
+    | some m => rw [hp] at h; exact key sigNums m h
+    | none =>
+      rw [hp] at h
+      dsimp only at h
+      generalize (if strStartsWith "SIG" (pyUpper (pyStrip s)) = true then pyUpper (pyStrip s) else "SIG" ++ pyUpper (pyStrip s)) = nm at h
+      cases hl : sigNames.lookup nm with
+      | none => rw [hl] at h; contradiction
+      | some m => rw [hl] at h; exact key sigNums m h
+  | none => exact absurd h (by unfold signalNumber; exact fun h => by contradiction)
+  | bool b => exact absurd h (by unfold signalNumber; exact fun h => by contradiction)
+  | auto => exact absurd h (by unfold signalNumber; exact fun h => by contradiction)
+
+/-- **constraint: forbidden name characters.**  A name is accepted only if, after stripping, it contains none
+    of the generated forbidden characters; since fix F17 this test is applied to the *expanded* process name. -/
+theorem name_chars (name out : String) (h : processOrGroupName name = .ok out) :
+    out = String.ofList (strip name.toList) ∧ ∀ c ∈ forbiddenNameChars, c ∉ strip name.toList := by
+  simp only [processOrGroupName] at h
+  split at h
+  · contradiction
+  · rename_i hany
+    injection h with h
+    refine ⟨h.symm, ?_⟩
+    intro c hc hin
+    apply hany
+    simp only [List.any_eq_true]
+    exact ⟨c, hc, by simpa using hin⟩
+
+theorem expanded_name_checked (cx : Ctx) (kind : PKind) (sec : Section) (pre : Pre) (E E' : Exps) (num : Int) (p : PConfig)
+    (h : mkProc cx kind sec pre E num = .ok (p, E')) :
+    ∀ c ∈ forbiddenNameChars, c ∉ p.name.toList := by
+  obtain ⟨_, _, nameX, _, _, _, _, _, _, _, hn, _⟩ := mkProc_expands cx kind sec pre E E' num p h
+  obtain ⟨ho, hc⟩ := name_chars nameX p.name hn
+  rw [ho]
+  simpa using hc
+
+
+/-! ### ordering -/
+
+/-- `a` is not after `b` in the order of Config.__lt__: smaller priority, or equal priority and name ≤ -/
+def cfgLe (pa : Int) (na : String) (pb : Int) (nb : String) : Prop := pa < pb ∨ (pa = pb ∧ na ≤ nb)
+
+theorem cfgLe_of_not_lt (pa pb : Int) (na nb : String) (h : cfgLt pb nb pa na = false) : cfgLe pa na pb nb := by
+  rcases (cfgLt_false_iff pb pa nb na).mp h with h | ⟨h1, h2⟩
+  · exact Or.inl h
+  · exact Or.inr ⟨h1.symm, h2⟩
+
+/-- **ordering (groups).**  The groups of an accepted file are the groups found (in any section order), sorted by
+    priority then name; groups equal in both keep their file order. -/
+theorem ordering_groups (cx : Ctx) (ini : Ini) (gs : List GConfig) (h : processGroupsFromParser cx ini = .ok gs) :
+    ∃ us, groupsUnsorted cx ini = .ok us ∧ gs.Perm us ∧
+      gs.Pairwise (fun a b => cfgLe a.priority a.name b.priority b.name) ∧
+      ∀ (p : Int) (n : String), gs.filter (fun g => g.priority == p && g.name == n) = us.filter (fun g => g.priority == p && g.name == n) := by
+  unfold processGroupsFromParser at h
+  cases hu : groupsUnsorted cx ini with
+  | error e => simp [hu, Except.map] at h
+  | ok us =>
+    simp only [hu, Except.map] at h
+    injection h with h
+    subst h
+    refine ⟨us, rfl, sortBy_perm _ _, ?_, ?_⟩
+    · have := sortBy_sorted gLt (cfgLt_strictWeak GConfig.priority GConfig.name) us
+      exact this.imp (fun {a b} hab => cfgLe_of_not_lt _ _ _ _ hab)
+    · intro p n
+      apply sortBy_stable
+      intro x y hx hy
+      simp only [Bool.and_eq_true, beq_iff_eq] at hx hy
+      simp only [gLt]
+      rw [cfgLt_false_iff]
+      right
+      exact ⟨by rw [hx.1, hy.1], by rw [hx.2, hy.2]; exact String.le_refl _⟩
+
+/-- **ordering (processes of a section).** -/
+theorem ordering_processes (cx : Ctx) (kind : PKind) (sec : Section) (suffix g : String) (ps : List PConfig)
+    (h : processesFromSection cx kind sec suffix g = .ok ps) :
+    ps.Pairwise (fun a b => cfgLe a.priority a.name b.priority b.name) := by
+  obtain ⟨us, _, hs, _⟩ := processesFromSection_perm cx kind sec suffix g ps h
+  subst hs
+  have := sortBy_sorted pLt (cfgLt_strictWeak PConfig.priority PConfig.name) us
+  exact this.imp (fun {a b} hab => cfgLe_of_not_lt _ _ _ _ hab)
+
+example : sortBy gLt [{ kind := .group, name := "b", priority := 5, procs := [] },
+                      { kind := .group, name := "a", priority := 5, procs := [] },
+                      { kind := .pool, name := "z", priority := -1, procs := [] }]
+    = [{ kind := .pool, name := "z", priority := -1, procs := [] },
+       { kind := .group, name := "a", priority := 5, procs := [] },
+       { kind := .group, name := "b", priority := 5, procs := [] }] := by decide
+
 
 end Sv.Props.C14
